@@ -1,6 +1,6 @@
 SPECIFICATION Spec
 CONSTANTS
-  MaxOutcomes = 6
+  MaxOutcomes = 5
   MaxBody = 3
   MaxElems = 3
   Lats = {0}
